@@ -4,6 +4,9 @@ use refmodels::util::SplitMix;
 pub const CONTENT_CLASSES: [&str; 5] = ["zero", "ff", "x80", "mod251", "seed"];
 
 pub fn content(class: &str, len: usize, seed: u64) -> Vec<u8> {
+    if let Some(h) = class.strip_prefix("hex:") {
+        return hex::decode(h).expect("hex content");
+    }
     match class {
         "zero" => vec![0u8; len],
         "ff" => vec![0xffu8; len],
